@@ -10,7 +10,7 @@ import numpy as np
 
 from .explore import Acc
 from .lib import fl
-from .oracle import close
+from .oracle import close, same
 from .ref import defuzz as RD
 from .ref.pipeline import MissingOperator, Pipeline
 
@@ -45,12 +45,28 @@ def sampled_vectors(engine) -> dict:
     return sampled
 
 
+def previous_is_old_value(acc: Acc, case: dict, engine, held, row, sig_extra) -> bool:
+    """One process() call defuzzifies every enabled output exactly once: its recorded previous value is the value it held
+    before the call; a disabled output keeps value and previous value."""
+    for ov, (value, previous) in zip(engine.output_variables, held):
+        want = value if ov.enabled else previous
+        last = np.atleast_1d(np.asarray(want, dtype=float))[-1]
+        got = np.asarray(ov.previous_value, dtype=float)
+        unchanged = ov.enabled or fl.Op.str(ov.value) == fl.Op.str(value)
+        if np.size(got) != 1 or not same(float(got), float(last)) or not unchanged:
+            acc.violate("previous-value", {"enabled": bool(ov.enabled), **sig_extra}, case, fl.Op.str(last), fl.Op.str(ov.previous_value),
+                        f"after process() at {row} output {ov.name} records previous value {ov.previous_value!r}; it held {want!r} before the call")
+            return False
+    return True
+
+
 def compare_step(acc: Acc, case: dict, engine, recipe: dict, pipe: Pipeline, row, sig_extra: dict | None = None) -> bool:
     """Process one row of Python floats on both sides. Returns True when everything agreed."""
     sig_extra = sig_extra or {}
     inputs = {v["name"]: x for v, x in zip(recipe["inputs"], row)}
     set_inputs(engine, row)
     acc.transitions += 1
+    held = [(ov.value, ov.previous_value) for ov in engine.output_variables]
     try:
         engine.process()
     except Exception as ex:  # noqa: BLE001
@@ -65,11 +81,16 @@ def compare_step(acc: Acc, case: dict, engine, recipe: dict, pipe: Pipeline, row
         acc.violate("process-raises", {"type": type(ex).__name__, **sig_extra}, case, want, f"{type(ex).__name__}: {ex}",
                     f"Engine.process() raised {type(ex).__name__}: {str(ex)[:120]} at {row}")
         return False
+    if not previous_is_old_value(acc, case, engine, held, row, sig_extra):
+        return False
     if not any(o.get("lock_previous") for o in recipe["outputs"]) and not any(t["cls"] == "Function" for o in recipe["outputs"] for t in o["terms"]):
         first = [fl.Op.str(ov.value) for ov in engine.output_variables]
         first_f = observe_fuzzy(engine)
+        held = [(ov.value, ov.previous_value) for ov in engine.output_variables]
         engine.process()
         acc.transitions += 1
+        if not previous_is_old_value(acc, case, engine, held, row, sig_extra):
+            return False
         if [fl.Op.str(ov.value) for ov in engine.output_variables] != first or observe_fuzzy(engine) != first_f:
             acc.violate("not-repeatable", {**sig_extra}, case, first, [fl.Op.str(ov.value) for ov in engine.output_variables],
                         f"processing the same inputs {row} twice gives different outputs or fuzzy outputs")
